@@ -1050,6 +1050,11 @@ def from_json(
         and isinstance(complex_record_fields[1], str)
     ):
         complex_real_string, complex_imag_string = complex_record_fields
+    else:
+        raise TypeError(
+            "complex_record_fields must be None or a pair of strings"
+            + ak._util.exception_suffix(__file__)
+        )
 
     is_path, source = ak._util.regularize_path(source)
 
@@ -1213,6 +1218,11 @@ def to_json(
         and isinstance(complex_record_fields[1], str)
     ):
         complex_real_string, complex_imag_string = complex_record_fields
+    else:
+        raise TypeError(
+            "complex_record_fields must be None or a pair of strings"
+            + ak._util.exception_suffix(__file__)
+        )
 
     if destination is None:
         return out.tojson(
